@@ -1,4 +1,5 @@
-//! A fixed series of FAILING calls into mila on the current thread. Run before a
+//! A fixed series of FAILING (and a few odd but possibly succeeding) calls into mila on the
+//! current thread: failing parses, failing serializations, strings with dangling lead bytes. Run before a
 //! representative case, it exposes state carried from one call to the next (a scratch
 //! buffer that is only cleared on the success path, a cache keyed too coarsely, ...).
 
@@ -54,6 +55,66 @@ pub fn failing_calls() {
         }
         let _ = (LZ13CompressionFormat {}).compress(&[]);
         let _ = (LZ10CompressionFormat {}).compress(&[]);
+        // calls that may SUCCEED but feed odd data through shared code: strings ending in a
+        // dangling Shift-JIS lead byte, a lone trail-range byte, an unassigned two-byte code
+        for tail in [&[b'a', 0x83][..], &[0x83], &[0xFA], &[b'b', 0xFC, 0xFC], &[0x81, 0x20], &[0xA0], &[0x80], &[0xFD, 0xFE, 0xFF], &[0xEF, 0xBB, 0xBF, b'x']] {
+            let mut pack = b"pack\x00\x01\x00\x00\x00\x00\x00\x00\x00\x00\x00\x18\x00\x00\x00\x40\x00\x00\x00\x01".to_vec();
+            pack.extend_from_slice(tail);
+            pack.push(0);
+            pack.resize(0x41, 0x77);
+            let _ = fe9_arc::parse(&pack);
+            for (e, me) in [(End::Little, Endian::Little), (End::Big, Endian::Big)] {
+                // bin archive: one string cell whose text is `tail`, one label named `tail`
+                let mut img: Vec<u8> = Vec::new();
+                let w = |v: u32| if e == End::Little { v.to_le_bytes() } else { v.to_be_bytes() };
+                let text_len = 2 * (tail.len() + 1);
+                let total = 0x20 + 4 + 4 + 8 + text_len;
+                img.extend_from_slice(&w(total as u32));
+                img.extend_from_slice(&w(4));
+                img.extend_from_slice(&w(1));
+                img.extend_from_slice(&w(1));
+                img.extend_from_slice(&[0; 16]);
+                img.extend_from_slice(&w((4 + 4 + 8 + tail.len() + 1) as u32)); // string pointer (relative to 0x20)
+                img.extend_from_slice(&w(0)); // pointer table: cell 0
+                img.extend_from_slice(&w(0)); // label on address 0
+                img.extend_from_slice(&w(0)); // name offset 0
+                img.extend_from_slice(tail);
+                img.push(0);
+                img.extend_from_slice(tail);
+                img.push(0);
+                let _ = BinArchive::from_bytes(&img, me).map(|a| a.serialize());
+                let _ = TextArchive::from_bytes(&img, TextArchiveFormat::ShiftJIS, me);
+            }
+        }
+        // failing SERIALIZE calls: an unencodable text that is not the first text of the archive
+        for me in [Endian::Little, Endian::Big] {
+            let mut a = BinArchive::new(me);
+            a.allocate_at_end(12);
+            let _ = a.write_label(0, "poison-ok-label");
+            let _ = a.write_string(0, Some("poison-ok-string"));
+            let _ = a.write_string(4, Some("poison \u{1F600} unencodable"));
+            let _ = a.write_c_string(8, "poison-cstring".to_string());
+            let _ = a.serialize();
+            let mut b = BinArchive::new(me);
+            b.allocate_at_end(8);
+            let _ = b.write_c_string(0, "poison-ok-cstring".to_string());
+            let _ = b.write_c_string(4, "poison \u{301C}".to_string());
+            let _ = b.serialize();
+            let mut t = TextArchive::new(TextArchiveFormat::ShiftJIS, me);
+            t.set_message("POISON_OK", "fine");
+            t.set_message("POISON_BAD", "wave \u{301C} dash");
+            let _ = t.serialize();
+            let mut t = TextArchive::new(TextArchiveFormat::Unicode, me);
+            t.set_title("poison \u{1F600}".into());
+            t.set_message("POISON \u{1F600}", "x");
+            let _ = t.serialize();
+        }
+        {
+            let mut m: indexmap::IndexMap<String, Vec<u8>> = indexmap::IndexMap::new();
+            m.insert("poison-ok.bin".into(), vec![1, 2, 3]);
+            m.insert("poison-\u{1F600}.bin".into(), vec![4]);
+            let _ = fe9_arc::serialize(&m);
+        }
         let junk: Vec<u8> = (0..96u8).map(|i| i.wrapping_mul(37)).collect();
         let _ = ctpk::read(&junk);
         let _ = bch::read(&junk);
